@@ -177,7 +177,9 @@ func treeReplay(args []string) {
 		// besides the two peers of the specification there is a mute one (its connection cannot be written to) that
 		// subscribed to node management first: what the others are sent must not depend on it
 		t2 := *topo
-		t2.Peers = append([]string{"m0"}, topo.Peers...)
+		// and two peers (q1, q2) that subscribed right after their connection was set up and never sent a discovery reply
+		// (their device address is not known to the stack): they are subscribers like p1
+		t2.Peers = append(append([]string{"m0"}, topo.Peers...), "q1", "q2")
 		s := NewSystem(&t2)
 		for _, pn := range []string{"m0", "p1", "p2"} {
 			s.step(Action{"a": "connect", "p": pn})
@@ -185,13 +187,18 @@ func treeReplay(args []string) {
 		}
 		s.step(Action{"a": "sub", "p": "m0", "c": "nm", "s": "NM", "ft": "NodeManagement", "ack": false})
 		s.step(Action{"a": "sub", "p": "p1", "c": "nm", "s": "NM", "ft": "NodeManagement", "ack": false})
-		if len(s.dev.SubscriptionManager().SubscriptionsOnFeature(*s.dev.NodeManagement().Address())) != 2 {
-			must(fmt.Errorf("tree-replay setup: the two node management subscriptions were not granted"))
+		for _, pn := range []string{"q1", "q2"} {
+			s.step(Action{"a": "connect", "p": pn})
+			s.step(Action{"a": "sub", "p": pn, "c": "nm", "s": "NM", "ft": "NodeManagement", "dev": "own", "sdev": "own", "ack": false})
+			s.peers[pn].w.drain()
+		}
+		if len(s.dev.SubscriptionManager().SubscriptionsOnFeature(*s.dev.NodeManagement().Address())) != 4 {
+			must(fmt.Errorf("tree-replay setup: the four node management subscriptions were not granted"))
 		}
 		ents := map[string]*spine.EntityLocal{}
 		static0 := ""
 		for _, a := range beh {
-			line := TreeLine{A: a, Ret: "ok", Reply: TTree{Ents: []string{}, Feats: []TFeat{}, None: true}, Notes: map[string][]TNote{"p1": {}, "p2": {}},
+			line := TreeLine{A: a, Ret: "ok", Reply: TTree{Ents: []string{}, Feats: []TFeat{}, None: true}, Notes: map[string][]TNote{"p1": {}, "p2": {}, "q1": {}, "q2": {}},
 				StaticOk: true, Resolves: true}
 			var injected uint64
 			func() {
@@ -245,7 +252,7 @@ func treeReplay(args []string) {
 				}
 			}()
 			// what was written to the peers
-			for _, pn := range []string{"p1", "p2"} {
+			for _, pn := range []string{"p1", "p2", "q1", "q2"} {
 				p := s.peers[pn]
 				for _, raw := range p.w.drain() {
 					var dg model.Datagram
